@@ -137,7 +137,8 @@ def enumerate_cases(tier, shard=0, nshards=1):
             continue
         for c1, c2 in itertools.permutations(CODES, 2):
             for arr in ('range-scalar', 'scalar-range', 'range-range',
-                        'scalar-scalar', 'tworanges'):
+                        'scalar-scalar', 'tworanges', 'row-across-z',
+                        'row-across-zz', 'block-row-major'):
                 out.append({'k': 'agg-err2', 'fn': fn, 'codes': [c1, c2],
                             'arr': arr})
     # (c3) an error cell that follows a long run of blank cells in the range
@@ -325,6 +326,20 @@ def judge(case):
             cells['Sheet1!A3'] = YIELD[c1]
             cells['Sheet1!B1'] = YIELD[c2]
             f = '=%s(%sA1:A3,2,B1:B2)' % (fn, lead)
+        elif arr == 'row-across-z':
+            # a row that runs from one-letter into two-letter columns
+            cells.update({'Sheet1!Y9': 1, 'Sheet1!Z9': YIELD[c1],
+                          'Sheet1!AA9': YIELD[c2], 'Sheet1!AB9': 2})
+            f = '=%s(%sY9:AB9)' % (fn, lead)
+        elif arr == 'row-across-zz':
+            cells.update({'Sheet1!ZY19': 1, 'Sheet1!ZZ18': YIELD[c1],
+                          'Sheet1!AAA18': YIELD[c2], 'Sheet1!AAB19': 2})
+            f = '=%s(%sZY18:AAB19)' % (fn, lead)
+        elif arr == 'block-row-major':
+            # in a block the first error in ROW-major order counts
+            cells.update({'Sheet1!D5': 1, 'Sheet1!E5': YIELD[c1],
+                          'Sheet1!D6': YIELD[c2], 'Sheet1!E6': 2})
+            f = '=%s(%sD5:E6)' % (fn, lead)
         else:
             f = '=%s(%s1,%s,2,%s)' % (fn, lead, c1, c2)
         o = lib.eval_formula(f, cells, addr='Sheet1!ZZ9')[0]
